@@ -292,6 +292,12 @@ def decide(pid, pc, tier, seed, work, t0, finder_driver):
             e['unit'] = r['unit']
             ledger.append(e)
         for f in r.get('report', {}).get('functions', []):
+            # the same source function may be under contract in several units (re-verified there): list it once
+            dup = [x for x in functions if x['file'] == f['file'] and x['src_lines'] == f['src_lines'] and x['sha256'] == f['sha256'][:12]]
+            if dup:
+                dup[0]['unit'] += ',' + r['unit']
+                dup[0]['props'] = sorted(set(dup[0]['props']) | set(f['props']))
+                continue
             functions.append(dict(unit=r['unit'], name=f['name'], file=f['file'], src_lines=f['src_lines'], props=f['props'], sha256=f['sha256'][:12]))
         funcs_time.update(r.get('funcs', {}))
     # obligations relevant to this property
